@@ -40,7 +40,7 @@ META = dict(
                 '(hypotheses c^2+s^2=1, rf^2*|eye-interest|^2=1, rs^2*|front x up|^2=1 in the theorems); libm accuracy and float32 '
                 'rounding are assumed within the stated bound ((4+2|angle in rad|) ulp32 for rotate, 8 ulp32 for lookat with '
                 'sin(front,up)>=0.3, first-order product bound for Node.matrix).'),
-    technique='Lean 4 proofs by ring / linear_combination / induction over lists and histories + per-entry correspondence with collada.scene transforms and Node.matrix',
+    technique='Lean 4 proofs by ring / linear_combination / induction over lists and histories (one node, and scenes of several nodes: scene_projection) + per-entry correspondence with collada.scene transforms and Node.matrix, bystander nodes included',
 )
 LEAN_MODULES = ['Pyc.Model.Transform']
 
